@@ -13,8 +13,8 @@ def first_pass():
     """what the checks said when the seed was first tried (before the checks were strengthened)"""
     import ast
     out = {}
-    # the first matrix in which a seed appears (round 1: k = 1, 2; round 2: k = 3..5; round 3: k = 6..8; round 4: k = 9..11)
-    for fn, ks in [('matrix_6_round4_new_seeds_first_checks.log', ['9', '10', '11']), ('matrix_8_round5_new_seeds_first_checks.log', ['9', '10', '11']), ('matrix_4_all_142_seeds_after_round2_strengthening.log', ['6', '7', '8']), ('matrix_2_all_seeds_after_round1_strengthening.log', ['3', '4', '5']), ('matrix_1_round1_seeds_first_checks.log', ['1', '2'])]:
+    # the first matrix in which a seed appears (round 1: k = 1, 2; round 2: k = 3..5; round 3: k = 6..8; round 4/5: k = 9..11; round 6: k = 12, 13)
+    for fn, ks in [('matrix_11_round6_new_seeds_first_checks.log', ['12', '13']), ('matrix_6_round4_new_seeds_first_checks.log', ['9', '10', '11']), ('matrix_8_round5_new_seeds_first_checks.log', ['9', '10', '11']), ('matrix_4_all_142_seeds_after_round2_strengthening.log', ['6', '7', '8']), ('matrix_2_all_seeds_after_round1_strengthening.log', ['3', '4', '5']), ('matrix_1_round1_seeds_first_checks.log', ['1', '2'])]:
         pth = ROOT + '/seeded/history/' + fn
         if not os.path.exists(pth):
             continue
